@@ -128,7 +128,7 @@ class CascadeMonitor:
                 ctx.hit("event:raise_without_defuzzifier_call")
             return
         if self.raw is None:
-            ctx.hit("inconclusive:raw defuzzified value not observed")
+            ctx.hit("skipped:raw defuzzified value not observed (defuzzifier class unknown to the hooks)")
             return
         raw_rows = rows(self.raw)
         last = rows(st["value"])[-1]
